@@ -2,7 +2,7 @@
 """Prepare a round of sub-agent work: scratch worktrees of /repo and one prompt file per property.
 
 usage: mk_prompts.py seed    <base dir> <flavour: unusual|coordinated|disguised|feature|mixed> [Cxx ...]
-       mk_prompts.py neutral <base dir> <flavour: small|large> [Cxx ...]
+       mk_prompts.py neutral <base dir> <flavour: small|medium|large> [Cxx ...]
 
 Each sub-agent gets ONLY the text of one property (from properties.jsonl) and its own scratch git worktree
 <base>/<Cxx> of /repo; nothing from /verif. Its deliverables land in <base>/<Cxx>/_out/ and are ingested with
@@ -69,6 +69,12 @@ At the end leave the worktree with NO change applied (git diff empty; remove you
 Reply with a short summary of the changes (at most 15 lines).
 '''
 
+NEUTRAL_MEDIUM = NEUTRAL_SMALL.replace(
+    "Your task: produce FOUR independent, realistic, BEHAVIOUR-PRESERVING changes (call them a, b, c, d)",
+    "Your task: produce THREE independent, realistic, BEHAVIOUR-PRESERVING changes (call them g, h, i)").replace(
+    "of moderate size (5-40 changed lines), and the four changes must be of DIFFERENT kinds, chosen from e.g.:",
+    "of medium size (20-70 changed lines), each touching a DIFFERENT function or file of the anchored code than the other two (prefer code that is less obviously central: accessors, constructors, String methods, sibling payloads, registries, error paths), and of DIFFERENT kinds, each combining two or three of e.g.:")
+
 NEUTRAL_LARGE = NEUTRAL_SMALL.replace(
     "Your task: produce FOUR independent, realistic, BEHAVIOUR-PRESERVING changes (call them a, b, c, d)",
     "Your task: produce TWO independent, realistic, BEHAVIOUR-PRESERVING changes (call them e and f)").replace(
@@ -95,8 +101,8 @@ def main():
                 fl = "coordinated" if pid in coordset else "disguised"
             txt = SEED.replace("@FLAVOUR@", FLAVOURS[fl])
         else:
-            txt = NEUTRAL_SMALL if flavour == "small" else NEUTRAL_LARGE
-            txt = txt.replace("@DIRS@", "a, b, c, d" if flavour == "small" else "e, f")
+            txt = {"small": NEUTRAL_SMALL, "medium": NEUTRAL_MEDIUM, "large": NEUTRAL_LARGE}[flavour]
+            txt = txt.replace("@DIRS@", {"small": "a, b, c, d", "medium": "g, h, i", "large": "e, f"}[flavour])
         txt = txt.replace("@BASE@", base).replace("@ID@", pid).replace("@PROP@", json.dumps(props[pid], indent=1))
         open(os.path.join(base, pid + ".prompt.txt"), "w").write(txt)
     print("prepared", len(ids), "worktrees and prompts under", base)
